@@ -117,7 +117,7 @@ def run(prop, tier, scenarios, check, bound, describe, cap=None, rule='', assump
     if unrepro:
         print('WARNING: %d violation classes did not reproduce on replay (not reported)' % unrepro)
     rc = rep.finish()
-    if nondet:
+    if nondet and rc == 0:
         return 2
     return rc
 
